@@ -8,6 +8,8 @@ import Nsq.Proofs.Fetch
 import Nsq.Proofs.AggregateWrap
 import Nsq.Proofs.Latency
 import Nsq.Proofs.ViewOrder
+import Nsq.Proofs.AggregateViews
+import Nsq.Proofs.AggregateChannels
 /-!
 # C18 — nsqadmin's cluster view equals the sum of its parts
 
@@ -21,17 +23,27 @@ integers: the sum statements are about the mathematical sums; what Go's int64 ma
 The fetch goroutines finish in any order; the model processes upstreams in list order and the
 `_order` theorems show that what is claimed does not depend on that order.
 
-`Fixes.all` is the tree with all six guards: the four committed ones (F4, null array elements, missing
-latency member, channel not found) and the two proposed in round 7 (`nilPct` = fixes/F53, `clearNodes` =
-fixes/F54 — until they are committed to /repo the two defects are open known findings). The `*_without_*`
-theorems are the Lean witnesses that the unguarded code panics (each replayed on the real code by the check).
+`Fixes.all` is the tree with all seven guards: the six committed to /repo (F4, null array elements, missing
+latency member, channel not found, `nilPct` = F53 / commit 905ac51, `clearNodes` = F54 / commit 786fd8f) and one that
+is proposed (`inactiveErrs` = fixes/F58: `GET /api/topics?inactive=true` throws the errors of its per-topic fetches
+away — until the integrator commits it this is the open known finding `view:inactive-drops-errors`). The `*_without_*`
+theorems are the Lean witnesses that the unguarded code misbehaves (each replayed on the real code by the check).
 One clause of the property is false of the code *and* of `Fixes.all`: "502 only when none answers" with
 zero known producers (`only_502_when_something_failed_false`, open finding, no patch).
+
+What is a statement about the upstreams and what is not (audit 7, C24): `sum_fields`, `channels_merge` speak about
+intermediate values (any list of reports / the reports GetNSQDStats returned); `topic_view_is_sum` and
+`channel_view_is_merge` only *unfold the handler* (they hold by the definition of `topicView` / `channelView` and
+are kept as lemmas). The statements that tie a view to the `World` are those of the section "The views and what the
+upstreams hold": `topic_view_from_upstreams`, `topic_view_channels_from_upstreams`, `channel_view_from_upstreams`, `counter_view_from_upstreams`,
+`nodes_view_lookupd` / `_direct`, `node_view_from_upstream`, `topic_producers_direct`, `topic_view_shown_int64`,
+`partial_warning_*_nsqd`, and `inactive_warning`, `inactive_view_lists` for `?inactive=true`.
 -/
 namespace Nsq.Props.C18
 open Nsq.Model.Aggregate
 open Nsq.Proofs.AggregateNames Nsq.Proofs.AggregateSafe Nsq.Proofs.AggregateSums
 open Nsq.Proofs.AggregateMerge Nsq.Proofs.AggregateFetch Nsq.Proofs.AggregateDedup
+open Nsq.Proofs.AggregateViews Nsq.Proofs.AggregateChannels
 
 /-! ## topics_union -/
 
@@ -378,8 +390,9 @@ theorem partial_warning_counter (w : World) (v : View) (h : counterView Fixes.al
       subst h
       exact ⟨fun hall => absurd (hrule.1.2 hall) (by simp), fun _ => ⟨rfl, by simp [hf]⟩⟩
 
-/-- What `/api/topics/:t` shows is `sum_fields` applied to the node reports GetNSQDStats returned,
-and what `/api/topics/:t/:c` shows is the `channels_merge` entry of the channel. -/
+/-- Unfolding lemma (holds by the definition of `topicView` / `channelView`; no statement about the upstreams — that
+is `topic_view_from_upstreams` / `channel_view_from_upstreams`): what `/api/topics/:t` shows is `sum_fields` applied to
+the node reports GetNSQDStats returned, and what `/api/topics/:t/:c` shows is the `channels_merge` entry of the channel. -/
 theorem topic_view_is_sum (w : World) (name : String) (v : View)
     (h : topicView Fixes.all w name = .ok v) (h200 : v.status = 200) :
     ∃ ps f1 ts m f2 t, getTopicProducers Fixes.all w name = .ok (.got ps f1) ∧
@@ -477,6 +490,7 @@ theorem partial_warning_node (w : World) (addr : String) (v : View)
         obtain ⟨ts, m⟩ := tm
         simp only [Except.ok.injEq] at h; subst h; exact Or.inl rfl
 
+
 /-! ## view_no_panic -/
 
 /-- **view_no_panic.** On the tree with the guards (`Fixes.all`) every view of every cluster —
@@ -544,6 +558,628 @@ example : (match view Fixes.all (chanWorld true) (.channel "t1" "nosuch") with
     | .ok v => v.status | .error _ => 0) = 404 := by decide
 example : (match view Fixes.all f4World .nodes with
     | .ok v => v.status | .error _ => 0) = 200 := by decide
+
+/-! ## The views and what the upstreams hold (audit round 7, C24)
+
+The theorems above speak about intermediate values (`sum_fields` about a fold over *any* reports, `channels_merge`
+about the reports GetNSQDStats *returned*). The theorems of this section close the gap to the `World`: what each view
+returns is stated in terms of the answers the upstreams give (`statsOf`, `infoOf`, `Lookupd.nodes`). `reportsOf w sel
+selc incl p` is producer `p`'s own `/stats` answer read the way nsqadmin reads it (`Proofs.AggregateViews`: null
+entries dropped, the selected topic kept, `memory_depth` / `delivery_msg_count` recomputed, `Node` / `Hostname`
+filled in from `p`) — empty when the request fails. -/
+
+/-- **topic_view_from_upstreams.** What `/api/topics/:t` shows, in both modes: its node list is — producer by
+producer, over the producers stage one returned — every topic object named `:t` in that producer's own `/stats`
+answer (`mem_reports` spells the membership out on the answer); its counters are the sums over exactly those objects,
+`paused` their disjunction. (Who the producers are: `topic_producers_direct`; nsqlookupd mode: the de-duplicated
+`/lookup` answers, `lookupdTopicProducers`.) -/
+theorem topic_view_from_upstreams (w : World) (name : String) (v : View)
+    (h : topicView Fixes.all w name = .ok v) (h200 : v.status = 200) :
+    ∃ ps f1 t, getTopicProducers Fixes.all w name = .ok (.got ps f1) ∧ v.body = .topic t ∧
+      let reports := ps.flatMap (reportsOf w name "" false)
+      t.nodes = reports ∧ t.paused = reports.any (·.paused) ∧
+      t.cnt.depth = isum (reports.map (·.cnt.depth)) ∧
+      t.cnt.memDepth = isum (reports.map (·.cnt.memDepth)) ∧
+      t.cnt.backendDepth = isum (reports.map (·.cnt.backendDepth)) ∧
+      t.cnt.msgCount = isum (reports.map (·.cnt.msgCount)) ∧
+      t.cnt.delivery = isum (reports.map (·.cnt.delivery)) ∧
+      t.cnt.zoneLocal = isum (reports.map (·.cnt.zoneLocal)) ∧
+      t.cnt.regionLocal = isum (reports.map (·.cnt.regionLocal)) ∧
+      t.cnt.globalMsg = isum (reports.map (·.cnt.globalMsg)) ∧
+      ∀ r, r ∈ reports ↔ ∃ p ∈ ps, ∃ ans tp, statsOf w p.addr name "" false = some ans ∧
+        some tp ∈ ans ∧ (name = "" ∨ tp.name = name) ∧ r = topicReport p tp := by
+  obtain ⟨ps, f1, ts, m, f2, t, h1, h2, h3, h4⟩ := topic_view_is_sum w name v h h200
+  have hts := nsqdStats_reports w ps name "" false ts m f2 h2
+  subst hts
+  obtain ⟨s1, s2, s3, s4, s5, s6, s7, s8, s9, s10⟩ := sum_fields Fixes.all name _ t h3
+  refine ⟨ps, f1, t, h1, h4, s1, s2, s3, s4, s5, s6, s7, s8, s9, s10, fun r => ?_⟩
+  have := mem_reports w name "" false ps r
+  simpa using this
+
+/-- Non-vacuity: two nsqds report `t1` (one of them also an unrelated topic), a third one fails. -/
+def tvTopic (n : String) (d m : Int) : Topic :=
+  { name := n, cnt := { depth := d, msgCount := m }, paused := false, channels := [], e2e := true }
+def tvWorld : World :=
+  { lookupds := [], nsqdAddrs := ["N0", "N1", "N2"],
+    nsqds := [{ addr := "N0", info := some info0, filters := false, stats := some [some (tvTopic "t1" 3 10), some (tvTopic "zz" 100 100)] },
+              { addr := "N1", info := some { info0 with addr := "N1" }, filters := true, stats := some [some (tvTopic "t1" 4 5)] },
+              { addr := "N2", info := some { info0 with addr := "N2" }, filters := true, stats := none }] }
+example : (match topicView Fixes.all tvWorld "t1" with
+    | .ok { status := 200, warn := true, body := .topic t } => (t.cnt.depth, t.cnt.msgCount, t.nodes.map (·.node))
+    | _ => (0, 0, [])) = (7, 15, ["N0", "N1"]) := by decide
+
+/-- **channel_view_from_upstreams.** What `/api/topics/:t/:c` shows: the channel objects with the asked key among
+the `/stats` answers of the producers — listed as its node reports, counters summed, clients concatenated, `paused`
+or-ed. -/
+theorem channel_view_from_upstreams (w : World) (topic chan : String) (v : View)
+    (h : channelView Fixes.all w topic chan = .ok v) (h200 : v.status = 200) :
+    ∃ ps f1 c, getTopicProducers Fixes.all w topic = .ok (.got ps f1) ∧ v.body = .channel c ∧
+      let reports := (chansOfTopics (ps.flatMap (reportsOf w topic chan true))).filter (fun r => chanKey topic r == chan)
+      reports ≠ [] ∧ c.nodes = reports ∧ c.cnt = sumFrom {} (reports.map (·.cnt)) ∧
+      c.clients = reports.flatMap (·.clients) ∧ c.paused = reports.any (·.paused) := by
+  obtain ⟨ps, f1, ts, m, f2, c, h1, h2, h3, h4⟩ := channel_view_is_merge w topic chan v h h200
+  have hts := nsqdStats_reports w ps topic chan true ts m f2 h2
+  subst hts
+  have hm := channels_merge Fixes.all w ps topic chan true _ m f2 h2 chan
+  simp only [] at hm
+  refine ⟨ps, f1, c, h1, h4, ?_⟩
+  by_cases hne : (chansOfTopics (ps.flatMap (reportsOf w topic chan true))).filter (fun r => chanKey topic r == chan) = []
+  · have := hm.1 hne
+    rw [h3] at this
+    cases this
+  · obtain ⟨c', hc', e1, e2, e3, e4⟩ := hm.2 hne
+    rw [h3] at hc'
+    cases hc'
+    exact ⟨hne, e3, e1, e2, e4⟩
+
+def cvChan (d : Int) (cl : List (Option Client)) : Chan :=
+  { name := "c1", cnt := { depth := d }, paused := false, clients := cl, e2e := true }
+def cvWorld : World :=
+  { lookupds := [], nsqdAddrs := ["N0", "N1"],
+    nsqds := [{ addr := "N0", info := some info0, filters := true,
+                stats := some [some { tvTopic "t1" 0 0 with channels := [some (cvChan 3 [some ⟨"h", "a"⟩, none])] }] },
+              { addr := "N1", info := some { info0 with addr := "N1" }, filters := true,
+                stats := some [some { tvTopic "t1" 0 0 with channels := [some (cvChan 4 [some ⟨"h", "b"⟩]), none] }] }] }
+example : (match channelView Fixes.all cvWorld "t1" "c1" with
+    | .ok { status := 200, warn := false, body := .channel c } => (c.cnt.depth, c.clients.map (·.clientId), c.nodes.length)
+    | _ => (0, [], 0)) = (7, ["a", "b"], 2) := by decide
+
+/-- **topic_view_channels_from_upstreams.** The merged channel list of `/api/topics/:t`, in both modes: with `crs` the
+channel objects of the topic objects named `:t` in the `/stats` answers of the stage-one producers (in order), the
+list has exactly one entry per channel name occurring in `crs`, and the entry of a name is made of *all* reports with
+that name: counters summed, clients concatenated, `paused` or-ed; its node list holds every report but the first
+(whose object the entry is). No hypothesis on duplicates: a node that lists a channel twice contributes two reports. -/
+theorem topic_view_channels_from_upstreams (w : World) (name : String) (v : View)
+    (h : topicView Fixes.all w name = .ok v) (h200 : v.status = 200) :
+    ∃ ps f1 t, getTopicProducers Fixes.all w name = .ok (.got ps f1) ∧ v.body = .topic t ∧
+      let crs := chansOfTopics (ps.flatMap (reportsOf w name "" false))
+      (t.channels.map (·.name)).Nodup ∧
+      (∀ n, n ∈ t.channels.map (·.name) ↔ ∃ r ∈ crs, r.name = n) ∧
+      ∀ c ∈ t.channels, ∃ a0 rest, crs.filter (fun r => r.name == c.name) = a0 :: rest ∧
+        c.cnt = sumFrom {} ((a0 :: rest).map (·.cnt)) ∧ c.nodes = rest ∧
+        c.clients = (a0 :: rest).flatMap (·.clients) ∧ c.paused = (a0 :: rest).any (·.paused) := by
+  obtain ⟨ps, f1, ts, m, f2, t, h1, h2, h3, h4⟩ := topic_view_is_sum w name v h h200
+  have hts := nsqdStats_reports w ps name "" false ts m f2 h2
+  subst hts
+  have hch := addAll_channels Fixes.all _ _ t h3
+  exact ⟨ps, f1, t, h1, h4, merged_spec _ _ (by simpa using hch)⟩
+
+/-- Non-vacuity: N0 reports `c1` twice (3, 1) and `c2`; N1 reports `c1` (4): `c1` = 8 with two further node entries. -/
+def mcWorld : World :=
+  { lookupds := [], nsqdAddrs := ["N0", "N1"],
+    nsqds := [{ addr := "N0", info := some info0, filters := true,
+                stats := some [some { tvTopic "t1" 0 0 with channels :=
+                  [some (cvChan 3 []), some (cvChan 1 []), some { cvChan 5 [] with name := "c2" }, none] }] },
+              { addr := "N1", info := some { info0 with addr := "N1" }, filters := true,
+                stats := some [some { tvTopic "t1" 0 0 with channels := [some (cvChan 4 [])] }] }] }
+example : (match topicView Fixes.all mcWorld "t1" with
+    | .ok { status := 200, warn := false, body := .topic t } => t.channels.map (fun c => (c.name, c.cnt.depth, c.nodes.length))
+    | _ => []) = [("c1", 8, 2), ("c2", 5, 0)] := by decide
+
+/-- The (key, value) pairs of `/api/counter`, read off the upstreams' answers: for every key of GetNSQDStats'
+channel map, one pair per channel object with that key — key `topic:channel:node` with the topic and channel name of
+the *first* such object, value its `message_count`. (`channels_merge` says what the map holds: exactly the channel
+objects of the reports, grouped by `topic:channel`.) -/
+def counterPairs (m : ChanMap) : List (String × Int) := counterEntries m
+
+/-- **counter_view_from_upstreams.** `/api/counter`: the channel map is the grouping (`channels_merge`) of the channel
+objects in the `/stats` answers of the producers of `/api/nodes` (`reportsOf`); the view has exactly one entry per
+distinct `topic:channel:node` among the pairs, holding the *sum* of the `message_count`s given under that key (a node
+that lists a channel twice is counted twice). -/
+theorem counter_view_from_upstreams (w : World) (v : View)
+    (h : counterView Fixes.all w = .ok v) (h200 : v.status = 200) :
+    ∃ ps f1 m f2 st, getProducers Fixes.all w = .ok (.got ps f1) ∧
+      nsqdStats Fixes.all w ps "" "" false = .ok (.got (ps.flatMap (reportsOf w "" "" false), m) f2) ∧
+      v.body = .counter st ∧ (st.map (·.1)).Nodup ∧
+      (∀ k, k ∈ st.map (·.1) ↔ k ∈ (counterPairs m).map (·.1)) ∧
+      (∀ k, valueAt st k = valueAt (counterPairs m) k) := by
+  unfold counterView at h
+  obtain ⟨s1, hs1⟩ := getProducers_ok w
+  simp only [hs1] at h
+  cases s1 with
+  | allFailed => simp only [Except.ok.injEq] at h; subst h; simp at h200
+  | got ps f1 =>
+    obtain ⟨s2, hs2⟩ := nsqdStats_ok w ps "" "" false
+    simp only [hs2] at h
+    cases s2 with
+    | allFailed => simp only [Except.ok.injEq] at h; subst h; simp at h200
+    | got tm f2 =>
+      obtain ⟨ts, m⟩ := tm
+      simp only [Except.ok.injEq] at h
+      subst h
+      have hts := nsqdStats_reports w ps "" "" false ts m f2 hs2
+      subst hts
+      obtain ⟨c1, c2, c3⟩ := counterFold_spec (counterEntries m) [] (by simp)
+      refine ⟨ps, f1, m, f2, counterOf m, hs1, hs2, rfl, ?_, ?_, ?_⟩
+      · rw [counterOf_eq]; exact c1
+      · intro k; rw [counterOf_eq, c2]; simp [counterPairs]
+      · intro k; rw [counterOf_eq, c3]; simp [counterPairs, valueAt, isum]
+
+def ctWorld : World :=
+  { lookupds := [], nsqdAddrs := ["N0", "N1"],
+    nsqds := [{ addr := "N0", info := some info0, filters := true,
+                stats := some [some { tvTopic "t1" 0 0 with channels :=
+                  [some { cvChan 0 [] with cnt := { msgCount := 5 } }, some { cvChan 0 [] with cnt := { msgCount := 2 } }] }] },
+              { addr := "N1", info := some { info0 with addr := "N1" }, filters := true,
+                stats := some [some { tvTopic "t1" 0 0 with channels := [some { cvChan 0 [] with cnt := { msgCount := 9 } }] }] }] }
+/-- Node N0 lists `c1` twice (5 + 2), N1 once. -/
+example : (match counterView Fixes.all ctWorld with
+    | .ok { status := 200, warn := false, body := .counter st } => st
+    | _ => []) = [("t1:c1:N0", 7), ("t1:c1:N1", 9)] := by decide
+
+/-- **nodes_view_lookupd.** `/api/nodes`, nsqlookupd mode: exactly one entry per TCP address that a responding
+nsqlookupd mentions in a non-null element of its `/nodes` answer. -/
+theorem nodes_view_lookupd (w : World) (hl : w.lookupds ≠ []) (v : View)
+    (h : nodesView Fixes.all w = .ok v) (h200 : v.status = 200) :
+    ∃ ps, v.body = .nodes ps ∧ (ps.map (·.tcp)).Nodup ∧ ∀ k, k ∈ ps.map (·.tcp) ↔ k ∈ mentioned w.lookupds := by
+  have hne : (!w.lookupds.isEmpty) = true := by
+    cases hw : w.lookupds with
+    | nil => exact absurd hw hl
+    | cons _ _ => rfl
+  unfold nodesView getProducers at h
+  simp only [hne, if_true] at h
+  obtain ⟨r, hr⟩ := lookupdProducers_ok w.lookupds
+  simp only [hr] at h
+  cases r with
+  | allFailed => simp only [Except.ok.injEq] at h; subst h; simp at h200
+  | got ps f =>
+    simp only [Except.ok.injEq] at h; subst h
+    exact ⟨ps, rfl, producers_dedup w.lookupds ps f hr⟩
+
+/-- **nodes_view_direct.** `/api/nodes`, direct mode: the configured nsqds whose `/info` *and*
+`/stats?include_clients=false` both answer, in configuration order, each with the fields of its `/info` answer and
+the topic names of its `/stats` answer (a null topic element gives the empty name); the others are counted as failed.
+(No fall-back on the configured address when `/info` lacks `broadcast_address` — unlike the topic view,
+`topic_producers_direct`.) -/
+theorem nodes_view_direct (w : World) (hl : w.lookupds = []) (v : View)
+    (h : nodesView Fixes.all w = .ok v) (h200 : v.status = 200) :
+    ∃ ps, v.body = .nodes ps ∧ ps = w.nsqdAddrs.filterMap (nsqdProducer w) ∧
+      v.warn = decide (countFailed (w.nsqdAddrs.map (nsqdProducer w)) > 0) ∧
+      ∀ p, p ∈ ps ↔ ∃ a ∈ w.nsqdAddrs, ∃ i ans, infoOf w a = some i ∧ statsOf w a "" "" false = some ans ∧
+        p = producerOfInfo i ans := by
+  unfold nodesView getProducers at h
+  simp only [hl, List.isEmpty_nil, Bool.not_true, Bool.false_eq_true, if_false] at h
+  have hrule := mapped_rule (w.nsqdAddrs.map (nsqdProducer w)) w.nsqdAddrs.length (by simp)
+    (fun xs => xs) (nsqdProducers w w.nsqdAddrs) (by simp [nsqdProducers])
+  cases hr : nsqdProducers w w.nsqdAddrs with
+  | allFailed => simp only [hr, Except.ok.injEq] at h; subst h; simp at h200
+  | got ps f =>
+    simp only [hr, Except.ok.injEq] at h; subst h
+    obtain ⟨hf, _⟩ := hrule.2 ps f hr
+    have hps : ps = w.nsqdAddrs.filterMap (nsqdProducer w) := by
+      unfold nsqdProducers at hr
+      simp only [] at hr
+      split at hr
+      · cases hr
+      · simp only [Fetched.got.injEq] at hr
+        rw [← hr.1]; simp [List.filterMap_map]
+    refine ⟨ps, rfl, hps, by simp [hf], fun p => ?_⟩
+    rw [hps]
+    simp only [List.mem_filterMap]
+    constructor
+    · rintro ⟨a, ha, ho⟩
+      obtain ⟨i, ans, h1, h2, h3⟩ := (nsqdProducer_eq w a p).1 ho
+      exact ⟨a, ha, i, ans, h1, h2, h3⟩
+    · rintro ⟨a, ha, i, ans, h1, h2, h3⟩
+      exact ⟨a, ha, (nsqdProducer_eq w a p).2 ⟨i, ans, h1, h2, h3⟩⟩
+
+example : (match nodesView Fixes.all tvWorld with
+    | .ok { status := 200, warn := true, body := .nodes ps } => ps.map (fun p => (p.addr, p.topics.map (·.topic)))
+    | _ => []) = [("N0", ["t1", "zz"]), ("N1", ["t1"])] := by decide
+
+/-- **topic_producers_direct.** Stage one of the topic and channel views in direct mode: the configured nsqds whose
+`/stats?topic=:t` answers *and lists the topic* and whose `/info` answers; an nsqd that answers without the topic is
+neither a producer nor a failure; a failing `/stats`, or a failing `/info` of an nsqd that has the topic, is one
+failure each. -/
+theorem topic_producers_direct (w : World) (hl : w.lookupds = []) (topic : String) :
+    ∃ r, getTopicProducers Fixes.all w topic = .ok r ∧
+      (r = .allFailed ↔ ∀ a ∈ w.nsqdAddrs, nsqdTopicProducer w topic a = none) ∧
+      ∀ ps f, r = .got ps f →
+        f = countFailed (w.nsqdAddrs.map (nsqdTopicProducer w topic)) ∧
+        ∀ p, p ∈ ps ↔ ∃ a ∈ w.nsqdAddrs, nsqdTopicProducer w topic a = some (some p) := by
+  unfold getTopicProducers
+  simp only [hl, List.isEmpty_nil, Bool.not_true, Bool.false_eq_true, if_false]
+  refine ⟨_, rfl, ?_⟩
+  have hrule := mapped_rule (w.nsqdAddrs.map (nsqdTopicProducer w topic)) w.nsqdAddrs.length (by simp)
+    (fun xs => xs.filterMap id) (nsqdTopicProducers w topic) (by simp [nsqdTopicProducers])
+  refine ⟨?_, fun ps f hr => ?_⟩
+  · rw [hrule.1]; simp
+  · refine ⟨(hrule.2 ps f hr).1, fun p => ?_⟩
+    unfold nsqdTopicProducers at hr
+    simp only [] at hr
+    split at hr
+    · cases hr
+    · simp only [Fetched.got.injEq] at hr
+      rw [← hr.1]
+      simp only [List.mem_filterMap, List.mem_map, id_eq]
+      constructor
+      · rintro ⟨o, ⟨oo, ⟨a, ha, rfl⟩, hoo⟩, ho⟩
+        subst ho
+        exact ⟨a, ha, hoo⟩
+      · rintro ⟨a, ha, hp⟩
+        exact ⟨some p, ⟨_, ⟨a, ha, rfl⟩, hp⟩, rfl⟩
+
+/-- The `/info` fall-back of GetNSQDTopicProducers (data.go, "for backwards compatibility"), which
+GetNSQDProducers lacks: an nsqd whose `/info` has no `broadcast_address` is shown by the topic view under its
+configured address (and its `/stats` is fetched there), while `/api/nodes` lists it under the address `:0` that
+nobody answers on — so `/api/counter` and `/api/nodes/:n` cannot reach it (one failed upstream, a warning). -/
+def oldInfoWorld : World :=
+  { lookupds := [], nsqdAddrs := ["N0"],
+    nsqds := [{ addr := "N0", filters := true, stats := some [some (tvTopic "t1" 3 10)],
+                info := some { hostname := "", addr := ":0", tcp := ":4150", version := "0.2.16", ver := (0, 2, 16), noBcast := true } }] }
+theorem info_fallback_asymmetry :
+    (match topicView Fixes.all oldInfoWorld "t1" with
+     | .ok { status := 200, warn := false, body := .topic t } => t.nodes.map (fun n => (n.node, n.hostname))
+     | _ => []) = [("N0", "127.0.0.1")] ∧
+    (match nodesView Fixes.all oldInfoWorld with
+     | .ok { status := 200, warn := false, body := .nodes ps } => ps.map (fun p => (p.addr, p.hostname))
+     | _ => []) = [(":0", "")] ∧
+    (match counterView Fixes.all oldInfoWorld with | .ok v => v.status | .error _ => 0) = 502 := by decide
+
+/-- **node_view_from_upstream.** `/api/nodes/:n`: 502 when no producer source answers or the node's own `/stats`
+fails, 404 when the producer list has no node with that HTTP address; otherwise the topic objects of *that node's*
+`/stats` answer, `total_messages` the sum of their `message_count`, `total_clients` the number of (non-null) client
+objects in their channels; the warning is that of the producer stage only. -/
+theorem node_view_from_upstream (w : World) (addr : String) (v : View)
+    (h : nodeView Fixes.all w addr = .ok v) :
+    ∃ s1, getProducers Fixes.all w = .ok s1 ∧
+      match s1 with
+      | .allFailed => v.status = 502
+      | .got ps f =>
+        match ps.find? (·.addr == addr) with
+        | none => v.status = 404
+        | some p =>
+          (statsOf w p.addr "" "" true = none → v.status = 502) ∧
+          (statsOf w p.addr "" "" true ≠ none →
+            v.status = 200 ∧ v.warn = decide (f > 0) ∧
+            let ts := reportsOf w "" "" true p
+            v.body = .node addr ts (isum (ts.map (·.cnt.msgCount)))
+              (isum (ts.map (fun t => isum (t.channels.map (fun c => (c.clients.length : Int))))))) := by
+  unfold nodeView at h
+  obtain ⟨r, hr⟩ := getProducers_ok w
+  refine ⟨r, hr, ?_⟩
+  simp only [hr] at h
+  cases r with
+  | allFailed => simp only [Except.ok.injEq] at h; subst h; rfl
+  | got ps f =>
+    simp only [] at h ⊢
+    cases hf : ps.find? (·.addr == addr) with
+    | none => simp only [hf, Except.ok.injEq] at h; subst h; rfl
+    | some p =>
+      simp only [hf] at h ⊢
+      obtain ⟨r2, h2⟩ := nsqdStats_ok w [p] "" "" true
+      simp only [h2] at h
+      have hrule := nsqdStats_rule Fixes.all w [p] "" "" true r2 h2
+      have hans : statsAnswers w [p] "" "" true = [statsOf w p.addr "" "" true] := by
+        simp [statsAnswers]
+      cases r2 with
+      | allFailed =>
+        simp only [Except.ok.injEq] at h; subst h
+        refine ⟨fun _ => rfl, fun hne => ?_⟩
+        have := hrule.1.1 rfl (statsOf w p.addr "" "" true) (by rw [hans]; simp)
+        exact absurd this hne
+      | got tm f2 =>
+        obtain ⟨ts, m⟩ := tm
+        simp only [Except.ok.injEq] at h; subst h
+        have hts := nsqdStats_reports w [p] "" "" true ts m f2 h2
+        simp only [List.flatMap_cons, List.flatMap_nil, List.append_nil] at hts
+        subst hts
+        refine ⟨fun hn => ?_, fun _ => ⟨rfl, rfl, rfl⟩⟩
+        have : Fetched.got (reportsOf w "" "" true p, m) f2 = Fetched.allFailed :=
+          hrule.1.2 (by rw [hans]; simpa using hn)
+        cases this
+
+example : (match nodeView Fixes.all ctWorld "N0" with
+    | .ok { status := 200, warn := false, body := .node "N0" ts tm tc } => (ts.length, tm, tc)
+    | _ => (0, 0, 0)) = (1, 0, 0) := by decide
+example : (match nodeView Fixes.all cvWorld "N0" with
+    | .ok { status := 200, body := .node _ _ _ tc, .. } => tc
+    | _ => 0) = 1 := by decide
+
+/-- **partial_warning (`/api/topics`, direct mode).** 502 iff no configured nsqd answers `/stats`; otherwise 200
+with a warning iff some does not. -/
+theorem partial_warning_topics_nsqd (w : World) (hl : w.lookupds = []) :
+    let answers := w.nsqdAddrs.map (fun a => statsOf w a "" "" true)
+    ((topicsView w).status = 502 ↔ ∀ a ∈ answers, a = none) ∧
+    ((topicsView w).status = 200 ∨ (topicsView w).status = 502) ∧
+    ((topicsView w).status = 200 → (topicsView w).warn = decide (countFailed answers > 0)) := by
+  intro answers
+  have hrule := mapped_rule answers w.nsqdAddrs.length (by simp [answers])
+    (fun xs => sortNames (uniq (xs.map topicNames).flatten)) (nsqdTopics w) (by simp [nsqdTopics, answers])
+  unfold topicsView
+  simp only [hl, List.isEmpty_nil, Bool.not_true, Bool.false_eq_true, if_false]
+  cases hr : nsqdTopics w with
+  | allFailed =>
+    exact ⟨⟨fun _ => hrule.1.1 hr, fun _ => rfl⟩, Or.inr rfl, fun h => by simp at h⟩
+  | got ts f =>
+    obtain ⟨hf, _⟩ := hrule.2 ts f hr
+    refine ⟨⟨fun h => by simp at h, fun hn => ?_⟩, Or.inl rfl, fun _ => by simp [hf]⟩
+    have := hrule.1.2 hn
+    rw [hr] at this
+    cases this
+
+/-- **partial_warning (`/api/nodes`, direct mode).** An nsqd counts as failed when its `/info` or its `/stats` fails. -/
+theorem partial_warning_nodes_nsqd (w : World) (hl : w.lookupds = []) (v : View)
+    (h : nodesView Fixes.all w = .ok v) :
+    (v.status = 502 ↔ ∀ a ∈ w.nsqdAddrs, infoOf w a = none ∨ statsOf w a "" "" false = none) ∧
+    (v.status = 200 ∨ v.status = 502) ∧
+    (v.status = 200 → v.warn = decide (countFailed (w.nsqdAddrs.map (nsqdProducer w)) > 0)) := by
+  have hrule := mapped_rule (w.nsqdAddrs.map (nsqdProducer w)) w.nsqdAddrs.length (by simp)
+    (fun xs => xs) (nsqdProducers w w.nsqdAddrs) (by simp [nsqdProducers])
+  have hnone : ∀ a, nsqdProducer w a = none ↔ (infoOf w a = none ∨ statsOf w a "" "" false = none) := by
+    intro a
+    unfold nsqdProducer
+    cases infoOf w a <;> cases statsOf w a "" "" false <;> simp
+  unfold nodesView getProducers at h
+  simp only [hl, List.isEmpty_nil, Bool.not_true, Bool.false_eq_true, if_false] at h
+  cases hr : nsqdProducers w w.nsqdAddrs with
+  | allFailed =>
+    simp only [hr, Except.ok.injEq] at h; subst h
+    refine ⟨⟨fun _ a ha => (hnone a).1 ?_, fun _ => rfl⟩, Or.inr rfl, fun h => by simp at h⟩
+    exact hrule.1.1 hr _ (List.mem_map.2 ⟨a, ha, rfl⟩)
+  | got ps f =>
+    simp only [hr, Except.ok.injEq] at h; subst h
+    obtain ⟨hf, _⟩ := hrule.2 ps f hr
+    refine ⟨⟨fun h => by simp at h, fun hn => ?_⟩, Or.inl rfl, fun _ => by simp [hf]⟩
+    have : nsqdProducers w w.nsqdAddrs = .allFailed := by
+      apply hrule.1.2
+      intro o ho
+      obtain ⟨a, ha, rfl⟩ := List.mem_map.1 ho
+      exact (hnone a).2 (hn a ha)
+    rw [hr] at this
+    cases this
+
+/-! ### The numbers a view shows are Go's int64 sums of the numbers the upstreams sent
+
+`AggregateWire` (the driver) prints `wrap64 x` for every integer `x` of a view body, and the correspondence compares
+that with the int64 nsqadmin prints. `shown x` names this rendering; the theorem says that for the topic view it is the
+running int64 sum (`goSum`: `+=` with wrap-around at every step) over the producers' own numbers — and the exact sum
+exactly when that fits. -/
+
+def shown (x : Int) : Int := Nsq.Model.Int64.wrap64 x
+
+open Nsq.Model.Int64 in
+/-- **topic_view_shown_int64.** -/
+theorem topic_view_shown_int64 (w : World) (name : String) (v : View)
+    (h : topicView Fixes.all w name = .ok v) (h200 : v.status = 200) :
+    ∃ ps f1 t, getTopicProducers Fixes.all w name = .ok (.got ps f1) ∧ v.body = .topic t ∧
+      let reports := ps.flatMap (reportsOf w name "" false)
+      shown t.cnt.depth = goSum (reports.map (·.cnt.depth)) ∧
+      shown t.cnt.backendDepth = goSum (reports.map (·.cnt.backendDepth)) ∧
+      shown t.cnt.msgCount = goSum (reports.map (·.cnt.msgCount)) ∧
+      shown t.cnt.memDepth = goSum (reports.map (·.cnt.memDepth)) ∧
+      (shown t.cnt.depth = isum (reports.map (·.cnt.depth)) ↔ inRange (isum (reports.map (·.cnt.depth)))) := by
+  obtain ⟨ps, f1, t, h1, h2, _, _, d1, d2, d3, d4, _⟩ := topic_view_from_upstreams w name v h h200
+  refine ⟨ps, f1, t, h1, h2, shown_sum _ _ d1, shown_sum _ _ d3, shown_sum _ _ d4, shown_sum _ _ d2, ?_⟩
+  unfold shown
+  rw [d1]
+  exact Nsq.Proofs.Int64.wrap64_eq_iff _
+
+/-- Two nodes at 2^62 each: the view shows -2^63 (and the real handler does: clusters of this kind are in the views stream). -/
+example : (match topicView Fixes.all
+      { tvWorld with nsqds := [{ addr := "N0", info := some info0, filters := true, stats := some [some (tvTopic "t1" 4611686018427387904 0)] },
+                               { addr := "N1", info := some { info0 with addr := "N1" }, filters := true, stats := some [some (tvTopic "t1" 4611686018427387904 0)] }] } "t1" with
+    | .ok { body := .topic t, .. } => shown t.cnt.depth
+    | _ => 0) = -9223372036854775808 := by decide
+
+/-! ## `/api/topics?inactive=true` (audit round 7, C25; `fixes/F58`)
+
+With `?inactive=true` topicsHandler asks, for every topic of the list, every nsqlookupd for the producers
+(`/lookup?topic=`) and — for a topic without producers — for the channels (`/channels?topic=`). The unchanged code
+throws both errors away. `Fixes.inactiveErrs` is the repaired handler (partial error → warning, total → 502). -/
+
+def inaP : ProducerJSON := pj "h" "N0" "N0:4150" "r"
+/-- Two nsqlookupds list `t1`. L0 knows no producer of it; L1 — the one that would know one — fails `/lookup?topic=t1`. -/
+def inactiveWorld : World :=
+  { lookupds := [⟨"L0", some ["t1"], some [], some []⟩, ⟨"L1", some ["t1"], some [some inaP], some [some inaP]⟩],
+    nsqdAddrs := [], nsqds := [],
+    perTopic := [⟨"L0", "t1", some [], some ["c2", "c1"]⟩, ⟨"L1", "t1", none, some ["c1"]⟩] }
+/-- Both fail `/lookup?topic=t1`. -/
+def inactiveWorldTotal : World :=
+  { inactiveWorld with perTopic := [⟨"L0", "t1", none, some ["c1"]⟩, ⟨"L1", "t1", none, some ["c1"]⟩] }
+
+def statusWarn (r : Except Fault View) : Nat × Bool :=
+  match r with
+  | .ok v => (v.status, v.warn)
+  | .error _ => (0, false)
+
+theorem inactiveWorld_topics : lookupdTopics inactiveWorld.lookupds = .got ["t1"] 0 := by
+  simp [lookupdTopics, inactiveWorld, countFailed, uniq, sortNames]
+
+/-- The handler after the topic list is known (nsqlookupd mode). -/
+theorem inactive_view_eq (fx : Fixes) (w : World) (ts : List String) (f : Nat)
+    (hne : w.lookupds.isEmpty = false) (h : lookupdTopics w.lookupds = .got ts f) :
+    view fx w .topicsInactive =
+      (match inactiveGo fx w ts with
+       | .error e => .error e
+       | .ok none => .ok { status := 502 }
+       | .ok (some (m, wn)) => .ok { status := 200, warn := f > 0 || wn, body := .inactive m }) := by
+  simp only [view, topicsInactiveView, hne, Bool.false_eq_true, if_false, h]
+  cases inactiveGo fx w ts with
+  | error e => rfl
+  | ok r =>
+    cases r with
+    | none => rfl
+    | some x => rfl
+
+/-- **The defect (audit C25) is genuine on the tree without F58**: an nsqlookupd fails one of the per-topic
+requests and the view is a 200 *without* warning (listing as inactive a topic whose producer only the failing
+nsqlookupd knows); all of them fail and it is still a 200, every topic "inactive". With F58: 200 *with* warning, and 502. -/
+theorem inactive_drops_errors_without_F58 :
+    statusWarn (view { Fixes.all with inactiveErrs := false } inactiveWorld .topicsInactive) = (200, false) ∧
+    statusWarn (view { Fixes.all with inactiveErrs := false } inactiveWorldTotal .topicsInactive) = (200, false) ∧
+    statusWarn (view Fixes.all inactiveWorld .topicsInactive) = (200, true) ∧
+    statusWarn (view Fixes.all inactiveWorldTotal .topicsInactive) = (502, false) := by
+  have ht : lookupdTopics inactiveWorldTotal.lookupds = .got ["t1"] 0 := inactiveWorld_topics
+  rw [inactive_view_eq _ inactiveWorld ["t1"] 0 rfl inactiveWorld_topics,
+      inactive_view_eq _ inactiveWorldTotal ["t1"] 0 rfl ht,
+      inactive_view_eq _ inactiveWorld ["t1"] 0 rfl inactiveWorld_topics,
+      inactive_view_eq _ inactiveWorldTotal ["t1"] 0 rfl ht]
+  decide
+
+/-- The property's clause for this view, for an arbitrary tree: a 200 carries a warning as soon as some nsqlookupd
+failed to answer `/lookup?topic=` for one of the listed topics. -/
+def inactive_warning_for (fx : Fixes) : Prop :=
+  ∀ (w : World) (v : View) (ts : List String) (f : Nat), w.lookupds ≠ [] →
+    view fx w .topicsInactive = .ok v → v.status = 200 → lookupdTopics w.lookupds = .got ts f →
+    (∃ t ∈ ts, ∃ l ∈ w.lookupds, lookupFor w l t = none) → v.warn = true
+
+theorem inactive_warning_false_without_F58 : ¬ inactive_warning_for { Fixes.all with inactiveErrs := false } := by
+  intro h
+  have hw := inactive_drops_errors_without_F58.1
+  cases hv : view { Fixes.all with inactiveErrs := false } inactiveWorld .topicsInactive with
+  | error e => rw [hv] at hw; simp [statusWarn] at hw
+  | ok v =>
+    rw [hv] at hw
+    simp only [statusWarn, Prod.mk.injEq] at hw
+    have := h inactiveWorld v ["t1"] 0 (by decide) hv hw.1 inactiveWorld_topics
+      ⟨"t1", by simp, ⟨"L1", some ["t1"], some [some inaP], some [some inaP]⟩, by simp [inactiveWorld], by decide⟩
+    rw [hw.2] at this
+    cases this
+
+/-- **partial_warning (`/api/topics?inactive=true`), with F58.** -/
+theorem inactive_warning : inactive_warning_for Fixes.all := by
+  intro w v ts f hl hv h200 hts hex
+  have hne : w.lookupds.isEmpty = false := by
+    cases hw : w.lookupds with
+    | nil => exact absurd hw hl
+    | cons _ _ => rfl
+  simp only [view, topicsInactiveView, hne, Bool.false_eq_true, if_false, hts] at hv
+  -- the loop: a failed /lookup answer for a listed topic sets the warning (or ends in 502)
+  have key : ∀ (l : List String) (m : List (String × List String)) (wn : Bool),
+      inactiveGo Fixes.all w l = .ok (some (m, wn)) →
+      (∃ t ∈ l, ∃ lk ∈ w.lookupds, lookupFor w lk t = none) → wn = true := by
+    intro l
+    induction l with
+    | nil => intro m wn _ ⟨t, ht, _⟩; cases ht
+    | cons t0 rest ih =>
+      intro m wn hgo hex
+      unfold inactiveGo at hgo
+      obtain ⟨r, hr⟩ := inactiveStep_ok w t0
+      simp only [hr] at hgo
+      cases r with
+      | none => cases hgo
+      | some x =>
+        obtain ⟨c, wn0⟩ := x
+        simp only [] at hgo
+        obtain ⟨r2, hr2⟩ := inactiveGo_ok w rest
+        simp only [hr2] at hgo
+        cases r2 with
+        | none => cases hgo
+        | some y =>
+          obtain ⟨acc, wn'⟩ := y
+          simp only [Except.ok.injEq, Option.some.injEq, Prod.mk.injEq] at hgo
+          rw [← hgo.2]
+          obtain ⟨t, ht, lk, hlk, hnone⟩ := hex
+          rcases List.mem_cons.1 ht with rfl | ht'
+          · -- the failing answer is for this very topic
+            have hw0 : wn0 = true := by
+              unfold inactiveStep at hr
+              obtain ⟨s1, hs1⟩ := lookupdTopicProducers_ok (lookupdsFor w t)
+              have hrule := lookupdTopicProducers_rule Fixes.all (lookupdsFor w t) s1 hs1
+              simp only [hs1] at hr
+              cases s1 with
+              | allFailed => simp [Fixes.all] at hr
+              | got ps f1 =>
+                obtain ⟨hf1, _⟩ := hrule.2 ps f1 rfl
+                have hpos : f1 > 0 := by
+                  rw [hf1]
+                  unfold countFailed
+                  apply List.length_pos_of_mem (a := (none : Option (List (Option ProducerJSON))))
+                  simp only [List.mem_filter, List.mem_map, lookupdsFor, Option.isNone_none, and_true]
+                  exact ⟨_, ⟨lk, hlk, rfl⟩, hnone⟩
+                simp only [] at hr
+                split at hr
+                · simp only [Except.ok.injEq, Option.some.injEq, Prod.mk.injEq] at hr
+                  rw [← hr.2]; simp [Fixes.all, hpos]
+                · split at hr
+                  · simp [Fixes.all] at hr
+                  · simp only [Except.ok.injEq, Option.some.injEq, Prod.mk.injEq] at hr
+                    rw [← hr.2]; simp [Fixes.all, hpos]
+            simp [hw0]
+          · have := ih acc wn' hr2 ⟨t, ht', lk, hlk, hnone⟩
+            simp [this]
+  cases hgo : inactiveGo Fixes.all w ts with
+  | error e => simp [hgo] at hv
+  | ok r =>
+    simp only [hgo] at hv
+    cases r with
+    | none => simp only [Except.ok.injEq] at hv; subst hv; simp at h200
+    | some x =>
+      obtain ⟨m, wn⟩ := x
+      simp only [Except.ok.injEq] at hv
+      subst hv
+      have := key ts m wn hgo hex
+      simp [this]
+
+/-- **inactive_view_lists.** What `/api/topics?inactive=true` lists (nsqlookupd mode, with F58): exactly the topics of
+the topic list (`topics_union`: the union over the responding nsqlookupds) for which no responding nsqlookupd's
+`/lookup?topic=` answer holds a (non-null) producer, in the order of the list, each with the strictly sorted union of
+the channels the responding nsqlookupds report for it (`/channels?topic=`). -/
+theorem inactive_view_lists (w : World) (hl : w.lookupds ≠ []) (v : View)
+    (h : view Fixes.all w .topicsInactive = .ok v) (h200 : v.status = 200) :
+    ∃ ts f m, lookupdTopics w.lookupds = .got ts f ∧ v.body = .inactive m ∧
+      m.map (·.1) = ts.filter (fun t => !anyProducer (lookupdsFor w t)) ∧
+      ∀ t cs, (t, cs) ∈ m → cs.Pairwise (· < ·) ∧
+        ∀ c, c ∈ cs ↔ ∃ l ∈ w.lookupds, ∃ names, channelsFor w l t = some names ∧ c ∈ names := by
+  have hne : w.lookupds.isEmpty = false := by
+    cases hw : w.lookupds with
+    | nil => exact absurd hw hl
+    | cons _ _ => rfl
+  cases hts : lookupdTopics w.lookupds with
+  | allFailed =>
+    simp only [view, topicsInactiveView, hne, Bool.false_eq_true, if_false, hts, Except.ok.injEq] at h
+    subst h; simp at h200
+  | got ts f =>
+    rw [inactive_view_eq Fixes.all w ts f hne hts] at h
+    cases hgo : inactiveGo Fixes.all w ts with
+    | error e => simp [hgo] at h
+    | ok r =>
+      cases r with
+      | none => simp only [hgo, Except.ok.injEq] at h; subst h; simp at h200
+      | some x =>
+        obtain ⟨m, wn⟩ := x
+        simp only [hgo, Except.ok.injEq] at h
+        subst h
+        obtain ⟨g1, g2⟩ := inactiveGo_spec w ts m wn hgo
+        refine ⟨ts, f, m, rfl, rfl, g1, fun t cs hm => ?_⟩
+        obtain ⟨f2, hu⟩ := g2 t cs hm
+        obtain ⟨u1, u2⟩ := unionNames_spec _ cs f2 hu
+        refine ⟨u1, fun c => ?_⟩
+        rw [u2]
+        simp only [channelAnswers, List.mem_map]
+        constructor
+        · rintro ⟨a, ⟨l, hl', rfl⟩, names, hs, hc⟩; exact ⟨l, hl', names, hs, hc⟩
+        · rintro ⟨l, hl', names, hs, hc⟩; exact ⟨_, ⟨l, hl', rfl⟩, names, hs, hc⟩
+
+/-- Non-vacuity: in `inactiveWorld` no responding nsqlookupd lists a producer of `t1` (L1, which would, fails). -/
+example : anyProducer (lookupdsFor inactiveWorld "t1") = false := by decide
+example : anyProducer inactiveWorld.lookupds = true := by decide
+
+/-- Direct mode: every topic an nsqd reports is live on it — the map is empty; the warning is that of the topic list. -/
+example : (match view Fixes.all tvWorld .topicsInactive with
+    | .ok { status := 200, warn := true, body := .inactive m } => m.length
+    | _ => 9) = 0 := by decide
 
 /-! ## The latency document: shape of `e2e_processing_latency.percentiles` (round 7, `fixes/F53`) -/
 
